@@ -8,7 +8,7 @@ import vf
 
 LEVEL = "model_checking"
 PAR = 4            # parallel replay / validation slices (the machine is shared)
-REPORT = 5         # distinct violating histories reported per run
+REPORT = 6         # distinct violating histories reported per run
 
 
 def _step(s):
@@ -41,6 +41,27 @@ def _jid(j):
 
 # bulk replays: crash reports are not symbolized (0.4 s per crash otherwise); the confirmation run is
 _ASAN_FAST = "detect_leaks=0:abort_on_error=0:halt_on_error=1:allocator_may_return_null=1:symbolize=0"
+
+
+# A transition tour shows the immediate reaction to every (state, action) pair; whether the step left
+# the connection in the right state shows only later.  Every tour behaviour is therefore extended by
+# state-identification suffixes that make the server reveal the identity it holds for the
+# connection: (1) bind a resource, send a message to the victim; (2) for behaviours that end in a step
+# of a SASL exchange, first an (empty) <response/> that completes an exchange the server may
+# wrongly consider verified, then (1).  Still behaviours of the model: every client action is enabled
+# in every open state; the harness stops when the server closes the connection.
+PROBE = [{"a": "Bind", "r": "ra"}, {"a": "Stanza", "k": "message", "f": "absent", "t": "victimFull"}]
+
+
+def _probed(behs, always_both=False):
+    out = []
+    for b in behs:
+        steps = b["steps"]
+        out.append(dict(b, steps=steps + PROBE))
+        if steps and (always_both or steps[-1]["a"] in ("Reply", "Response", "Auth")):
+            ver = next((s["ver"] for s in reversed(steps) if s["a"] == "Auth"), "sasl")
+            out.append(dict(b, steps=steps + [{"a": "Response", "ver": ver, "cred": "empty"}] + PROBE))
+    return out
 
 
 def _replay_and_validate(chk, behs, tag, symbolize=False):
@@ -118,7 +139,7 @@ def run(chk, replay=None):
         gen = {}
         tour1, gen["tour_one_reply_both_sasl_versions"] = vf.tlc_gen("ServerGen.tla", "ServerGenTour.cfg")
         tour2, gen["tour_two_replies_sasl"] = vf.tlc_gen("ServerGen.tla", "ServerGenTour2.cfg")
-        behs = tour1 + tour2
+        behs = _probed(tour1 + tour2)
         if quick:
             sim, gen["random_walks_full_alphabet"] = vf.tlc_simulate("ServerGen.tla", "ServerGenSim.cfg", num=1500, depth=12, seed=chk.seed)
             behs += sim
@@ -127,7 +148,7 @@ def run(chk, replay=None):
             t4, gen["tour_reauth"] = vf.tlc_gen("ServerGen.tla", "ServerGenTourR.cfg")
             allp, gen["all_paths_depth5"] = vf.tlc_gen("ServerGen.tla", "ServerGenAll5.cfg")
             sim, gen["random_walks_full_alphabet"] = vf.tlc_simulate("ServerGen.tla", "ServerGenSim.cfg", num=40000, depth=14, seed=chk.seed)
-            behs += t3 + t4 + allp + sim
+            behs += _probed(t3 + t4, always_both=True) + allp + sim
         behs = vf.maximal_behaviours(behs)
         chk.cov["generation"] = gen
     vf.write_ndjson(chk.path("behaviours.ndjson"), behs)
@@ -172,7 +193,14 @@ def run(chk, replay=None):
     ordered = sorted(found.items(), key=lambda kv: (kv[1][2], kv[0]))
     chk.cov["distinct_violating_histories"] = len(ordered)
     # confirmed re-run: a violation is reported only if it repeats on a fresh run of the same history
-    top = ordered[:REPORT]
+    # reported: the shortest history of every kind of failure (set of predicates) first, then the next shortest
+    kinds, rest = {}, []
+    for sig, v in ordered:
+        if tuple(v[1]) in kinds:
+            rest.append((sig, v))
+        else:
+            kinds[tuple(v[1])] = (sig, v)
+    top = (list(kinds.values()) + rest)[:REPORT]
     if top:
         again = [{"steps": b["steps"][:stepno]} for _, (b, _props, stepno) in top]
         res2 = _replay_and_validate(chk, again, "confirm", symbolize=True)
